@@ -137,7 +137,8 @@ impl Chitchat {
                 let scheduled_for_deletion: HashSet<_> =
                     self.scheduled_for_deletion_nodes().collect();
                 let self_digest = self.compute_digest(&scheduled_for_deletion);
-                let delta_mtu = MAX_UDP_DATAGRAM_PAYLOAD_SIZE - 1 - self_digest.serialized_len();
+                // 4 bytes of message header: magic number, protocol version and message tag.
+                let delta_mtu = MAX_UDP_DATAGRAM_PAYLOAD_SIZE - 4 - self_digest.serialized_len();
                 let delta = self.cluster_state.compute_partial_delta_respecting_mtu(
                     &digest,
                     delta_mtu,
@@ -155,7 +156,7 @@ impl Chitchat {
                     self.scheduled_for_deletion_nodes().collect::<HashSet<_>>();
                 let delta = self.cluster_state.compute_partial_delta_respecting_mtu(
                     &digest,
-                    MAX_UDP_DATAGRAM_PAYLOAD_SIZE - 1,
+                    MAX_UDP_DATAGRAM_PAYLOAD_SIZE - 4,
                     &scheduled_for_deletion,
                 );
                 Some(ChitchatMessage::Ack { delta })
